@@ -36,8 +36,9 @@ type H3Action struct {
 }
 
 type H3Script struct {
-	Status  int     // < 0: the stream ends (per End) before any response HEADERS
-	Fields  []Field // response fields (content-length included when declared)
+	Status  int       // < 0: the stream ends (per End) before any response HEADERS
+	Interim [][]Field // interim (1xx) header blocks written before the final one, each with its :status
+	Fields  []Field   // response fields (content-length included when declared)
 	HdrCut  int     // > 0: only the first HdrCut bytes of the HEADERS frame are written, then End
 	Actions []H3Action
 	End     string // fin | reset | connclose
@@ -202,6 +203,9 @@ func (s *H3Server) serveStream(conn quic.Connection, connID int64, str quic.Stre
 	sc.Conns1 = append(sc.Conns1, connID)
 	sc.mu.Unlock()
 	if sc.Status >= 0 {
+		for _, blk := range sc.Interim {
+			str.Write(H3HeadersFrame(blk))
+		}
 		hf := H3HeadersFrame(append([]Field{{":status", fmt.Sprint(sc.Status)}}, sc.Fields...))
 		if sc.HdrCut > 0 && sc.HdrCut < len(hf) {
 			str.Write(hf[:sc.HdrCut])
